@@ -15,3 +15,55 @@ func init() {
 		}
 	}})
 }
+
+func init() {
+	lifeO := AlphaOpts{RespKinds: []string{"ok", "bad", "noout"}, CtxOps: []string{"pause", "start", "kill"},
+		Updates: []CtxUpdate{updTotalUp}, Withdraw: []string{"O1:", "O2:P2"}}
+	register(&CheckSpec{Prop: "C02", Runs: func(tier string) []RunSpec {
+		d, b, m := 8, 5, 2
+		if tier == "thorough" {
+			d, b, m = 10, 6, 3
+		}
+		return []RunSpec{
+			{Name: "life-one+rep2+poor", Sc: scLife(defaultParams(), []Template{tOne, tRep2, tPoor}, lifeO, d, b, m), Oracles: []Oracle{oracleC02{}}},
+			{Name: "price-subunit+zero", Sc: scPrice(paramSet("0.1", "0.001"), "p1v", "p0", []Template{tOne, tRep2}, lifeO, d, b, m), Oracles: []Oracle{oracleC02{}}},
+		}
+	}})
+	register(&CheckSpec{Prop: "C03", Runs: func(tier string) []RunSpec {
+		d, b, m := 7, 4, 3
+		if tier == "thorough" {
+			d, b, m = 9, 5, 4
+		}
+		return []RunSpec{
+			{Name: "bind-ops+slash", Sc: scBind(defaultParams(), bindOpsFull(), []Template{tSlash}, []string{"bad"}, d, b, m), Oracles: []Oracle{oracleC03{}}},
+		}
+	}})
+	register(&CheckSpec{Prop: "C04", Runs: func(tier string) []RunSpec {
+		d, b, m := 7, 4, 3
+		if tier == "thorough" {
+			d, b, m = 9, 5, 4
+		}
+		return []RunSpec{
+			{Name: "bind-ops+slash", Sc: scBind(defaultParams(), bindOpsFull(), []Template{tSlash}, []string{"bad", "ok"}, d, b, m), Oracles: []Oracle{oracleC04{}}},
+			{Name: "life-slash-paths", Sc: scLife(defaultParams(), []Template{tOne, tRep2, tSuper}, lifeO, d+1, b+1, 2), Oracles: []Oracle{oracleC04{}}},
+		}
+	}})
+	register(&CheckSpec{Prop: "C13", Runs: func(tier string) []RunSpec {
+		d, b, m := 7, 3, 4
+		if tier == "thorough" {
+			d, b, m = 9, 4, 5
+		}
+		return []RunSpec{
+			{Name: "fees", Sc: scFees(paramSet("0.1", "0.001"), true, d, b, m), Oracles: []Oracle{oracleC13{}}},
+		}
+	}})
+	register(&CheckSpec{Prop: "C14", Runs: func(tier string) []RunSpec {
+		d, b, m := 7, 4, 3
+		if tier == "thorough" {
+			d, b, m = 9, 5, 4
+		}
+		return []RunSpec{
+			{Name: "bind-ops+slash", Sc: scBind(defaultParams(), bindOpsFull(), []Template{tSlash}, []string{"bad"}, d, b, m), Oracles: []Oracle{oracleC14{}}},
+		}
+	}})
+}
